@@ -2,6 +2,7 @@ package checks
 
 import (
 	"fmt"
+	"math"
 	"reflect"
 	"sort"
 	"strings"
@@ -470,6 +471,12 @@ func c13Flavours(c *ev.Ctx) {
 			cases = append(cases, fl{fmt.Sprintf("%s(len %d) nested in []any", p.name, n), []interface{}{p.in, int8(3)}, renderNative([]interface{}{p.want, 3})})
 			cases = append(cases, fl{fmt.Sprintf("%s(len %d) nested in map[string]any", p.name, n), map[string]interface{}{"k": p.in, "f": float32(0.5)}, renderNative(map[string]interface{}{"k": p.want, "f": 0.5})})
 		}
+	}
+	// numeric widths are normalised, never prettified: a float32 leaf must come back as the float64 holding
+	// exactly the same number (0.1f -> 0.10000000149011612)
+	for _, f := range []float32{0.1, 3.14, 1.0 / 3, 1e-7, 1677721.75, math.MaxFloat32, math.SmallestNonzeroFloat32, -2.7182817, 16777217} {
+		cases = append(cases, fl{fmt.Sprintf("float32(%v) leaf in []any", f), []interface{}{f, map[string]interface{}{"k": f}}, renderNative([]interface{}{float64(f), map[string]interface{}{"k": float64(f)}})})
+		cases = append(cases, fl{fmt.Sprintf("float32(%v) leaf in map[string]any", f), map[string]interface{}{"a": []interface{}{f}, "b": f}, renderNative(map[string]interface{}{"a": []interface{}{float64(f)}, "b": float64(f)})})
 	}
 	for _, cs := range cases {
 		c.Eval(1)
